@@ -7,6 +7,7 @@ import N2V.Lemmas.WorldClean
 import N2V.Lemmas.WorldSettled
 import N2V.Lemmas.WorldReflect
 import N2V.Lemmas.WorldSettledD
+import N2V.Lemmas.SchedDone2
 namespace N2V.C03
 open N2V N2V.Work N2V.Load
 
@@ -229,6 +230,39 @@ example : PlainD exEnv.g := by
   refine ⟨?_, ?_⟩ <;> intro b bm hb <;> (cases b with
     | zero => simp [buildOf, exEnv] at hb; subst hb; decide
     | succ n => simp [buildOf, exEnv] at hb)
+
+/-- **What a failed build completed is not redone.**  Let an invocation end in success OR in an
+    ordinary failure (a command failed, the `-k` budget ran out, an interruption; no reload; no
+    input-rewriting commands; remembered dependencies of finished steps are source files), and let
+    the manifest load to the same graph from the world it left.  Then every non-phony step that was
+    `Done` when it stopped and whose named files exist is `UpToDate` in the freshly loaded
+    environment of the next invocation (all its files exist, and the signature attached from the
+    log is the manifest of the tree as it is), with only source files among its remembered
+    dependencies - so `check_build_dirty` finds it clean (`checkDirty_upToDate`) and it is skipped,
+    unless something it names is changed before its turn. -/
+theorem completed_steps_are_up_to_date_next_time (w : World) (m : Bytes) (l : Loader) (e0 : Env)
+    (hl : loadEnv w m = .ok (l, e0)) (plain : PlainD e0.g)
+    (a : Run.Args) (adopt : Bool) (perms : List (List Nat)) (fin : List (Nat × Sched.Term))
+    (h : (∃ n, (Run.build (schedGraph e0.g) a (choices adopt perms fin) e0).2.2 = .done n) ∨
+         (Run.build (schedGraph e0.g) a (choices adopt perms fin) e0).2.2 = .failed)
+    (hsrc : GoodD (Run.build (schedGraph e0.g) a (choices adopt perms fin) e0).1
+              (Run.build (schedGraph e0.g) a (choices adopt perms fin) e0).2.1)
+    (w' : World)
+    (hw' : w' = { fs := (Run.build (schedGraph e0.g) a (choices adopt perms fin) e0).2.1.fs,
+                  clock := (Run.build (schedGraph e0.g) a (choices adopt perms fin) e0).2.1.clock,
+                  log := (Run.build (schedGraph e0.g) a (choices adopt perms fin) e0).2.1.log })
+    (e0' : Env) (hl' : loadEnv w' m = .ok (l, e0'))
+    (b : Nat) (bm : BuildM) (hb : buildOf e0.g b = some bm)
+    (hdoneb : (Run.build (schedGraph e0.g) a (choices adopt perms fin) e0).1.st b = .done)
+    (hnp : bm.cmdline.isNone = false)
+    (hall : AllPresentD (Run.build (schedGraph e0.g) a (choices adopt perms fin) e0).2.1 bm b) :
+    buildOf e0'.g b = some bm ∧ UpToDate e0' b bm ∧ ∀ f ∈ discOf e0' b, fileInput e0'.g f = none := by
+  obtain ⟨inv0, gok, _⟩ := loadEnv_graph_ok w m l e0 hl
+  obtain ⟨hc0, _, _, _⟩ := loadEnv_frame w m l e0 hl
+  obtain ⟨_, l0⟩ := loadEnv_loaded0 w m l e0 hl
+  have j := Run.build_done_or_failed gok a _ (JG e0) (jd_spec e0 inv0 l0 plain adopt perms fin) e0
+    (jg_initial e0 a inv0 l0 hc0) h hsrc
+  exact next_startup_upToDate w m l e0 hl _ _ j hsrc w' hw' e0' hl' b bm hb hdoneb hnp hall
 
 /-- **The monitor's verdict is the theorem's hypothesis.**  `World.settledC` is the decidable
     predicate the driver evaluates on the world the real n2 left behind (monitor
